@@ -4,6 +4,7 @@ import (
 	"bytes"
 	"fmt"
 	"os"
+	"sort"
 	"time"
 
 	"github.com/KevoDB/kevo/pkg/common/iterator"
@@ -38,9 +39,22 @@ func (e *DefaultCompactionExecutor) CompactFiles(task *CompactionTask) ([]string
 	// Create a merged iterator over all input files
 	var iterators []iterator.Iterator
 
-	// Add iterators from both levels
+	// Add iterators from all input levels. The merge gives earlier sources
+	// precedence, so sources go in newest first: lower levels before higher
+	// ones, and inside level 0 (whose files overlap) the most recently written
+	// file first
 	for level := 0; level <= task.TargetLevel; level++ {
-		for _, file := range task.InputFiles[level] {
+		files := task.InputFiles[level]
+		if level == 0 {
+			files = append([]*SSTableInfo(nil), files...)
+			sort.SliceStable(files, func(i, j int) bool {
+				if files[i].Timestamp != files[j].Timestamp {
+					return files[i].Timestamp > files[j].Timestamp
+				}
+				return files[i].Sequence > files[j].Sequence
+			})
+		}
+		for _, file := range files {
 			// We need an iterator that preserves delete markers
 			if file.Reader != nil {
 				iterators = append(iterators, file.Reader.NewIterator())
